@@ -375,7 +375,7 @@ func Run(tier string) int {
 		mc.Fatal("%v", err)
 	}
 	defer os.RemoveAll(dir)
-	budget := 80 * time.Second
+	budget := 150 * time.Second
 	if tier == "thorough" {
 		budget = 13 * time.Minute
 	}
@@ -393,7 +393,7 @@ func Run(tier string) int {
 		}
 	}
 	for _, ids := range idNames {
-		if tier != "thorough" && ids != "dense" && ids != "descending" {
+		if tier != "thorough" && ids != "descending" {
 			continue
 		}
 		for a := 0; a < n; a++ {
@@ -421,7 +421,10 @@ func Run(tier string) int {
 		rep.Report(mc.Violation{Symptom: "panic", Key: c.name(cases[i]), Msg: c.name(cases[i]) + ": " + text})
 	})
 	// host-group boundary family
-	hb := hostBoundary(c, tier, deadline)
+	hb, hbAll := hostBoundary(c, tier, deadline)
+	if hb != hbAll {
+		timedOut = 1
+	}
 	cv := rep.Coverage
 	cv["evaluations"] = c.evals + int64(hb)
 	cv["distinct_nontrivial"] = c.nontriv + int64(hb)
@@ -452,7 +455,7 @@ func Run(tier string) int {
 
 // hostBoundary fills one writer up to the limit of a host group and appends every short sequence
 // of streams whose hosts are old or new.
-func hostBoundary(c *ctx, tier string, deadline time.Time) int {
+func hostBoundary(c *ctx, tier string, deadline time.Time) (int, int) {
 	type tail struct {
 		name string
 		mk   func(k int, nHosts int) *ref.StreamSpec
@@ -543,7 +546,7 @@ func hostBoundary(c *ctx, tier string, deadline time.Time) int {
 	}, func(i int, text string) {
 		c.rep.Report(mc.Violation{Symptom: "hostgroup.panic", Key: fmt.Sprint(jobs[i]), Msg: text})
 	})
-	return int(done)
+	return int(done), len(jobs)
 }
 
 func bstream(cl, sv net.IP, k int) *ref.StreamSpec {
